@@ -22,12 +22,28 @@ def run(item_id, spec, repo, workdir):
     out = dict(item=item_id, harness=b['harness'], status='error', witnesses={}, bound='', checked=0, detail='')
     try:
         texts = []
-        for (src, path) in b['items']:
+        for ent in b['items']:
+            src, path = ent[0], ent[1]
             srcpath = weave.resolve_src(repo, src)
             s, toks = weave.load_src(srcpath)
+            if path == '*':
+                # the whole source file (a small leaf module); `subs` adapts its `use crate::...` lines to the harness
+                t = s
+                for (pa, rp) in b.get('subs', []):
+                    t = re.sub(pa, rp, t)
+                t = re.sub(r'\bpub\(crate\)\s+', 'pub ', t)
+                texts.append('// ---- real text of the file %s ----\n%s\n' % (src, t))
+                continue
             it = R.locate(s, toks, path)
             t = R.item_text(s, toks, it)
             t = re.sub(r'\bpub\(crate\)\s+', '', t)
+            if len(ent) > 2:
+                # a statement fragment of the item, placed verbatim into the given wrapper (as the weaver does)
+                ms = list(re.finditer(ent[2], weave.strip_comments(t), re.S))
+                if len(ms) != 1:
+                    out['detail'] = 'fragment of %s not found (%d matches)' % (path, len(ms))
+                    return out
+                t = ent[3].replace('{FRAG}', ms[0].group(0))
             texts.append('// ---- real text of %s (%s) ----\n%s\n' % (path, src, t))
         h = open(os.path.join(CONTRACTS, b['harness'])).read()
         if '/*{REAL}*/' not in h:
@@ -45,8 +61,28 @@ def run(item_id, spec, repo, workdir):
         cfgs = []
         for cf in b.get('cfgs', []):
             cfgs += ['--cfg', cf]
-        c = subprocess.run(['rustc', '--edition', '2024', '-O', '-A', 'warnings'] + cfgs + ['-o', exe, src_path],
-                           capture_output=True, text=True, timeout=300)
+        if b.get('cargo_deps'):
+            # the function needs crates of the repository's dependency set: a throw-away cargo project with exactly those
+            # dependencies, pinned by a copy of the repository's Cargo.lock, built offline from the local registry
+            proj = os.path.join(d, name + '_proj')
+            shutil.rmtree(proj, ignore_errors=True)
+            os.makedirs(os.path.join(proj, 'src'))
+            deps = '\n'.join('%s = "%s"' % kv for kv in b['cargo_deps'].items())
+            open(os.path.join(proj, 'Cargo.toml'), 'w').write(
+                '[package]\nname = "bounded_harness"\nversion = "0.0.0"\nedition = "2024"\n[workspace]\n[dependencies]\n%s\n[profile.release]\ndebug = false\n' % deps)
+            shutil.copy(src_path, os.path.join(proj, 'src', 'main.rs'))
+            lock = os.path.join(repo, 'Cargo.lock')
+            if os.path.exists(lock):
+                shutil.copy(lock, os.path.join(proj, 'Cargo.lock'))
+            env = dict(os.environ, CARGO_NET_OFFLINE='true', RUSTFLAGS='-A warnings', CARGO_TARGET_DIR=os.path.join(proj, 'target'))
+            c = subprocess.run(['cargo', 'build', '--release', '--offline', '-q'], cwd=proj, capture_output=True, text=True, timeout=600, env=env)
+            if c.returncode != 0 and os.path.exists(os.path.join(proj, 'Cargo.lock')):
+                os.remove(os.path.join(proj, 'Cargo.lock'))     # the copied lock file may not fit a one-crate project: let cargo resolve offline
+                c = subprocess.run(['cargo', 'build', '--release', '--offline', '-q'], cwd=proj, capture_output=True, text=True, timeout=600, env=env)
+            exe = os.path.join(proj, 'target', 'release', 'bounded_harness')
+        else:
+            c = subprocess.run(['rustc', '--edition', '2024', '-O', '-A', 'warnings'] + cfgs + ['-o', exe, src_path],
+                               capture_output=True, text=True, timeout=300)
         if c.returncode != 0:
             out['detail'] = 'the real function text does not compile stand-alone: ' + c.stderr.strip()[:600]
             return out
